@@ -210,7 +210,7 @@ def step (st : St) (toks : List String) : St × String :=
     match getChain st crd with
     | none => (st, "none")
     | some c =>
-      let (c', out) := find Order.ident c ⟨ver a, ver b⟩
+      let (c', out) := findCode Order.ident c ⟨ver a, ver b⟩
       ({ st with chains := setAssoc st.chains crd c' },
         match out with
         | .found _ => "found"
